@@ -342,9 +342,10 @@ Definition get_crs_from_attrs (x : xobj) (sd : string * string) : option crs :=
 Record fixes := Fixes {
   fx_ds_direct : bool;     (* Dataset reprojection builds the Dataset directly (not Dataset.map) *)
   fx_pix_unit : bool;      (* pixel-space labels of a rotated grid fall back to resolution 1 *)
-  fx_gcp_unit : bool       (* ... same for GCP based arrays *)
+  fx_gcp_unit : bool;      (* ... same for GCP based arrays *)
+  fx_ds_dims : bool        (* Dataset reprojection warps only variables spanning the Dataset's spatial dims *)
 }.
-Definition repaired : fixes := Fixes true true true.
+Definition repaired : fixes := Fixes true true true true.
 
 (** _extract_transform *)
 Definition extract_transform (fx : fixes) (tol : Q) (cs : coords) (sd : string * string)
@@ -662,20 +663,32 @@ Definition amerge {V} (a b : list (string * V)) : list (string * V) :=
     (keep_attrs defaults to True): variable attrs, the attrs of every output
     coordinate whose name exists in the source and the Dataset attrs are copied
     back from the source. *)
-(** [_maybe_reproject] of one data variable *)
+(** [src.odc.spatial_dims] of the Dataset *)
+Definition ds_spatial_dims (fx : fixes) (tol : Q) (src : xobj) : option (string * string) :=
+  match locate_geo_info fx tol src with Ok st => gs_sdims st | Err _ => None end.
+
+(** [_maybe_reproject] of one data variable: warped when it has a geobox and (repaired code)
+    spans the spatial dimensions of the Dataset, passed through with its CRS coordinates
+    stripped otherwise *)
 Definition reproject_ds_var (fx : fixes) (tol itol : Q) (src : xobj) (dst : gbox) (dst_nodata : option Q)
            (nv : string * xvar) : res (string * xobj) :=
   match ds_getitem src (fst nv) with
   | None => Err EOther
   | Some dv =>
       st <- locate_geo_info fx tol dv ;;
+      let spans := match ds_spatial_dims fx tol src with
+                   | Some sd => subsetb [fst sd; snd sd] (map fst (x_dims dv))
+                   | None => false
+                   end in
+      let pass :=
+        let strip := map fst (locate_crs_coords (x_gm dv) (x_attrs dv) (x_coords dv)) in
+        Ok (fst nv, XObj false (x_dims dv) (x_gm dv) (x_attrs dv)
+                         (filter (fun nc => negb (smem (fst nc) strip)) (x_coords dv)) []) in
       match gs_box st with
-      | None =>
-          (* pass-through of variables without a geobox, CRS coordinates stripped *)
-          let strip := map fst (locate_crs_coords (x_gm dv) (x_attrs dv) (x_coords dv)) in
-          Ok (fst nv, XObj false (x_dims dv) (x_gm dv) (x_attrs dv)
-                           (filter (fun nc => negb (smem (fst nc) strip)) (x_coords dv)) [])
-      | Some _ => o <- reproject_da fx tol itol dv dst dst_nodata ;; Ok (fst nv, o)
+      | None => pass
+      | Some _ =>
+          if fx_ds_dims fx && negb spans then pass
+          else o <- reproject_da fx tol itol dv dst dst_nodata ;; Ok (fst nv, o)
       end
   end.
 
@@ -756,6 +769,7 @@ Definition geo_var (tol : Q) (src : xobj) (nv : string * xvar) (syd sxd : string
       ds_getitem src (fst nv) = Some dv /\ locate_geo_info repaired tol dv = Ok st /\
       gs_box st = Some sb /\ box_crs sb <> None /\ gs_sdims st = Some (syd, sxd) /\
       x_dims dv = pre ++ [(syd, n1); (sxd, n2)] ++ post) /\
+  ds_spatial_dims repaired tol src = Some (syd, sxd) /\
   syd <> sxd /\ other_dims_ok (pre ++ post) syd sxd.
 
 (** a variable passed through without a geobox that brings no coordinate or dimension
